@@ -129,6 +129,11 @@ def run(tier, rep):
                    if "\n" not in u + m + c and not u.startswith((">", "- ", "1.", "#", "  "))} |
                   {"x " + "[" * n + "a" + "]" * n + "(u)" for n in sizes})
     one += deep
+    # Unicode look-alikes inside one-line texts (a line separator, form feed, NEL, ... are ordinary characters of
+    # the text for Markdown: the text stays one line in every block context)
+    tw = [t for t in gen.twins(gen.sample([d for d in l2 if d.strip(" \t")], 4000 if q else 60000, C.SEED + 9), C.SEED, per_doc=2)
+          if "\n" not in t and t.strip(" \t") == t and t]
+    one += ["x" + t + "y" for t in tw[: len(tw) // 2]] + tw[len(tw) // 2:]
     j2 = [(t, ctx, CFGS[(k + n) % len(CFGS)]) for k, t in enumerate(one) for n, ctx in enumerate(CTX)]
     t2 = C.pmap(law_embed, j2, chunk=300)
     verdicts, st = C.validate_traces("DocAlgebraTrace", t1 + t2, shard=3000, heap="10g")
